@@ -154,8 +154,10 @@ func newC09Rig(bin bool) (*c09Rig, error) {
 		},
 		// a static route whose next hop is a host-table name: every listener's loop
 		// asks the shared host table
-		Routes: []labRouteCfg{{Dests: []string{"c09-static.test"}, Protocol: "udp", NextHop: "c09-hop.test:5080"}, {Dests: []string{"c09-static2.test"}, Protocol: "udp", NextHop: "c09-hop2.test:5080"}},
-		Hosts:  [][2]string{{"c09-hop.test", ip(36)}, {"c09-hop2.test", ip(37)}},
+		Routes: []labRouteCfg{{Dests: []string{"c09-static.test"}, Protocol: "udp", NextHop: "c09-hop.test:5080"}, {Dests: []string{"c09-static2.test"}, Protocol: "udp", NextHop: "c09-hop2.test:5080"},
+			// a wildcard: every listener's loop matches never-seen hosts against it
+			{Dests: []string{"*.c09w.test", "c09-lit.c09x.test"}, Protocol: "udp", NextHop: "c09-hop2.test:5080"}},
+		Hosts: [][2]string{{"c09-hop.test", ip(36)}, {"c09-hop2.test", ip(37)}},
 	}
 	r.backendOf[ip(36)+":5080"] = c09StaticHop
 	r.backendOf[ip(37)+":5080"] = c09StaticHop2
@@ -355,8 +357,13 @@ func (r *c09Rig) run(plan c09Plan, tag string) c09Outcome {
 				if !tcp {
 					// (the hop answers to the top Via over UDP: TCP clients would not hear it)
 					method, ruri, to, want = "MESSAGE", "sip:x@c09-static.test", "<sip:x@c09-static.test>", c09StaticHop
-					if (ci+j/5)%2 == 1 {
+					switch (ci + j/5) % 3 {
+					case 1:
 						ruri, to, want = "sip:x@c09-static2.test", "<sip:x@c09-static2.test>", c09StaticHop2
+					case 2:
+						// a host nobody has asked about before, covered by the wildcard route
+						h := fmt.Sprintf("w%d-%d-%s.c09w.test", ci, j, tag)
+						ruri, to, want = "sip:x@"+h, "<sip:x@"+h+">", c09StaticHop2
 					}
 				}
 			}
@@ -787,7 +794,7 @@ func c09SharedObjects(rt *rapid.T) string {
 }
 
 func TestC09(t *testing.T) {
-	V.Rule("lab under the race detector: rapid draws load plans - GOMAXPROCS in {2,4,8,16}, 2-12 UDP and 1-8 TCP stop-and-wait clients spread over three listen entries of one service (shared learned-route table; UDP and TCP listeners; UDP, TCP and dynamically resolved backends), 30-250 transactions each with unique identifiers in a fixed mix (OPTIONS - every other one to a To host never seen before -, dialog-creating INVITE answered with a To-tag, in-dialog INFO of an unknown dialog, MESSAGE with one of two static routes whose next hops are host-table names), backends that answer every request, optional membership churn through the resolver's addressResolved entry point, sparse (a change every 70-110 ms) or fast (every 100-400 us), at least one stable backend per listen entry, every fourth transaction preceded by a request whose first Route entry names an unknown host with the listener's port (looked up, unreachable, dropped), optional hammering of ByteArrayPool, ClientTransportMgr, DynamicHostResolver and a host table from three goroutines; unit (shared-objects): the learned-route table taught 200-3000 hosts by each of 2-6 loops at once (every host known afterwards, with its listener; a loop finds what it learned itself at once) and the rotation dispatching from 2-6 loops while two further backends are added and removed without pause (no panic, every dispatch at exactly one backend). Oracle: no race report, no fatal error or panic, every client finishes (no transaction waits more than 20 s unless a membership change was in flight), every request reached exactly one backend of the listen entry it was sent to (at most one while a change was in flight), every response returned to the client that sent the request, every request body (a function of its Call-ID; TCP clients pipeline a companion request now and then) arrived intact. non-trivial = plan with >= 2 listeners receiving simultaneously and >= 1 membership change during traffic; distinct by plan")
+	V.Rule("lab under the race detector: rapid draws load plans - GOMAXPROCS in {2,4,8,16}, 2-12 UDP and 1-8 TCP stop-and-wait clients spread over three listen entries of one service (shared learned-route table; UDP and TCP listeners; UDP, TCP and dynamically resolved backends), 30-250 transactions each with unique identifiers in a fixed mix (OPTIONS - every other one to a To host never seen before -, dialog-creating INVITE answered with a To-tag, in-dialog INFO of an unknown dialog, MESSAGE with one of two literal static routes or, to a host never seen before, a wildcard route, whose next hops are host-table names), backends that answer every request, optional membership churn through the resolver's addressResolved entry point, sparse (a change every 70-110 ms) or fast (every 100-400 us), at least one stable backend per listen entry, every fourth transaction preceded by a request whose first Route entry names an unknown host with the listener's port (looked up, unreachable, dropped), optional hammering of ByteArrayPool, ClientTransportMgr, DynamicHostResolver and a host table from three goroutines; unit (shared-objects): the learned-route table taught 200-3000 hosts by each of 2-6 loops at once (every host known afterwards, with its listener; a loop finds what it learned itself at once) and the rotation dispatching from 2-6 loops while two further backends are added and removed without pause (no panic, every dispatch at exactly one backend). Oracle: no race report, no fatal error or panic, every client finishes (no transaction waits more than 20 s unless a membership change was in flight), every request reached exactly one backend of the listen entry it was sent to (at most one while a change was in flight), every response returned to the client that sent the request, every request body (a function of its Call-ID; TCP clients pipeline a companion request now and then) arrived intact. non-trivial = plan with >= 2 listeners receiving simultaneously and >= 1 membership change during traffic; distinct by plan")
 	V.Assume("schedules are sampled by the Go scheduler under the drawn plan, not enumerated: this check can expose races, never show their absence")
 	V.Require("unit: learned-route table and rotation driven by several loops at once", "engine:bin (-race binary under load)", "plan with fast churn", "plan with churn", "plan with hammering", ">=2 listeners in parallel", "tcp and udp clients together")
 	rig, err := newC09Rig(false)
